@@ -26,7 +26,7 @@
      row.essential name, us[], bs[]
      row.expr      tokens ..., see TraceExpr
    Each failing row prints <<"VERDICT", t, line, {clause}, first failing position>>. *)
-EXTENDS Expr, Json, IOUtils
+EXTENDS Expr, Views, Json, IOUtils
 
 Lines == ndJsonDeserialize(IOEnv.TRACE_FILE)
 VARIABLE l
@@ -210,6 +210,31 @@ RowClause(e) ==
     [] e.op = "row.toexpr" -> "expr.roundtrip"
     [] OTHER -> "trace.unknown_op"
 
+(* Binding of the transcribed views (Views.tla, model-checked by MC_Views) to
+   the code: what the real call returned equals, value for value, what the
+   transcription computes in the recorded state.  A mismatch is NOT a
+   violation of C18 (the property is judged above, on the exported graph
+   itself); it says that MC_Views no longer speaks about this code and is
+   reported as the non-gating clause model.views_transcription. *)
+NodeSet(g) == {<<g.nodes[i][1], g.nodes[i][2]>> : i \in DOMAIN g.nodes}
+RecEdges(g) == {<<g.edges[i][1], g.edges[i][2], g.edges[i][3], g.edges[i][4]>> : i \in DOMAIN g.edges}
+TranscriptionBad(e) ==
+  CASE e.op = "row.descendants" ->
+         FirstBad(e.rootsets, LAMBDA i : SeqSet(e.sets[i]) = Descendants(S, SeqSet(e.rootsets[i])))
+    [] e.op = "row.graph" /\ e.kind = "nx" ->
+         FirstBad(e.graphs, LAMBDA i :
+           LET g == e.graphs[i]  t == ToNx(S, SeqSet(g.roots)) IN
+           /\ NodeSet(g) = {<<x, t.lvl[x]>> : x \in t.ids} /\ DOMAIN t.lvl = t.ids
+           /\ RecEdges(g) = EdgeSet(t))
+    [] e.op = "row.graph" /\ e.kind = "dot" ->
+         FirstBad(e.graphs, LAMBDA i :
+           LET g == e.graphs[i]  t == ToDot(S, SeqSet(g.roots), FALSE) IN
+           /\ NodeSet(g) = {<<x, t.lvl[x]>> : x \in t.ids}
+           /\ RecEdges(g) = t.edges)
+    [] e.op = "row.size" ->
+         FirstBad(e.us, LAMBDA i : e.sizes[i] = DagSize(S, e.us[i]))
+    [] OTHER -> 0
+
 HeldN(s) == {x \in Nodes(s) : s.ext[x] > 0}
 (* the end snapshot: still canonical, every function still has ONE node *)
 EndClauses ==
@@ -239,6 +264,9 @@ Next == /\ l < NL
                        ELSE PrintT(<<"VERDICT", Lines[1].t, l + 1, {RowClause(e)}, b>>))
                    /\ (IF b2 = 0 THEN TRUE
                        ELSE PrintT(<<"VERDICT", Lines[1].t, l + 1, {"rel.preimage.primed_operand"}, b2>>))
+                   /\ LET b3 == TranscriptionBad(e) IN
+                      (IF b3 = 0 THEN TRUE
+                       ELSE PrintT(<<"VERDICT", Lines[1].t, l + 1, {"model.views_transcription"}, b3>>))
         /\ l' = l + 1
 Consumed == TLCGet("distinct") = NL
 =============================================================================
